@@ -6,6 +6,9 @@ NOTE = ('Trusted: the pyvc evaluator (/verif/pyvc) and its stated Python-subset 
         'the sidecar contracts/spec functions. Assumed external contracts are listed in the evidence file.')
 
 CLAIMED = {
+    'C01': ('proof', 'Class invariant of BiddingPhase (38 conjuncts: each slot of the advertised vector == legality of that call by the Laws, in every position in progress) proved established by __init__ and preserved by take_bid for an arbitrary symbolic state and call; take_bid proved to accept iff legal and to leave every field unchanged on rejection. Induction over the call history is the class-invariant rule, so every history of every length is covered by one symbolic step.', '4 (C01)'),
+    'C02': ('proof', 'Same invariant: active seat == dealer rotated by the number of calls, per-seat lists == the seat\'s share of the common history (quantified over list positions), over <=> the history ends in the pattern the Laws prescribe; take_bid proved to return FINISHED exactly when the call ends the auction, and to raise with nothing changed once over.', '4 (C02)'),
+    'C03': ('proof', 'take_bid proved to update last bid, its bidder, doubling flags and the first-to-name table as the Laws prescribe (fill-when-empty), contract() proved to report None before the end, a passed-out contract without bids, else last bid / effective doubling status / board vulnerability / table entry of the bidding side and denomination.', '4 (C03)'),
     'C07': ('proof', 'calc_bid_score / calc_score and the vulnerability chain (Contract.is_vul -> Player.is_vul -> Pair.is_vul) are proved equal to an independent Law-77 formula oracle for the whole finite domain in a handful of symbolic queries; every callee is used by contract and its contract is proved in the same run.', '4 (C07)'),
     'C15': ('proof', 'Every converter is proved equal to a spec table over its complete finite domain (symbolic for arithmetic converters, finite case split + constant folding for text converters); inverse/injectivity lemmas are proved over the spec tables.', '4 (C15)'),
     'C16': ('proof', 'point_difference_to_imps is proved equal to the official scale for every (unbounded) integer; monotonicity, oddness and range are lemmas over that contract; score_to_imp is proved by contract.', '4 (C16)'),
